@@ -192,11 +192,35 @@ func run(cs Case) ev.Outcome {
 		}
 		return ev.Outcome{Skip: "harness: " + err.Error()}
 	}
+	if os.Getenv("VERIF_C16_DEBUG") != "" {
+		fmt.Fprintf(os.Stderr, "DBG case %s %s ot=%s %s/%s mask=%s: %d ms stalled=%v gok=%v recycle=%v gerr=%q eerr=%q\n", cs.S.Mode, sourceOf(cs.S), cs.S.OT,
+			dirName[cs.C.Dir], rep.Kind, cs.C.Mask, rep.ElapsedMs, rep.Stalled, rep.GOK, rep.Recycle, rep.GErr, rep.EErr)
+	}
 	return judge(cs, rep)
 }
 
 // ---------------------------------------------------------------------------
 // Generator of the sampling unit.
+
+// uni draws a (nearly) uniform value in [0, n): rapid's integer generators are
+// deliberately biased to small values, which would starve the later message
+// kinds and mask types.
+func uni(t *rapid.T, n int, label string) int {
+	if n <= 1 {
+		return 0
+	}
+	return int(uniBits(t, 24, label) % uint64(n))
+}
+
+func uniBits(t *rapid.T, bits int, label string) uint64 {
+	var v uint64
+	for i := 0; i < bits; i++ {
+		if rapid.Bool().Draw(t, label) {
+			v |= 1 << uint(i)
+		}
+	}
+	return v
+}
 
 var fragChoices = []int{0, 1, 2, 3, 15, 16, 17, 31, 4095}
 
@@ -214,13 +238,13 @@ var genOpts = mpcl.Opts{NumParams: 2, MaxStmts: 3, MaxDepth: 2, MaxWidth: 5,
 
 func genSession(t *rapid.T) Session {
 	var s Session
-	if rapid.IntRange(0, 99).Draw(t, "mode") < 55 {
+	if uni(t, 100, "mode") < 55 {
 		s.Mode = "circ"
 	} else {
 		s.Mode = "stream"
 	}
 	var nx, ny int
-	src := rapid.IntRange(0, 99).Draw(t, "source")
+	src := uni(t, 100, "source")
 	switch {
 	case s.Mode == "circ" && src < 70:
 		o := gen.CircOpts{MinArgs: 2, MaxArgs: 2, MaxWidth: 6, MaxGates: 24,
@@ -229,7 +253,7 @@ func genSession(t *rapid.T) Session {
 		s.Circ = &c
 		nx, ny = c.In[0], c.In[1]
 	case (s.Mode == "circ" && src < 90) || (s.Mode == "stream" && src < 65):
-		s.Prog = rapid.SampledFrom(fixedProgNames).Draw(t, "prog")
+		s.Prog = fixedProgNames[uni(t, len(fixedProgNames), "prog")]
 		fp := fixedByName(s.Prog)
 		nx, ny = fp.XT.Bits, fp.YT.Bits
 	default:
@@ -240,13 +264,13 @@ func genSession(t *rapid.T) Session {
 	}
 	s.X = gen.BitsOf(gen.DrawBits(t, nx, "x"))
 	s.Y = gen.BitsOf(gen.DrawBits(t, ny, "y"))
-	if rapid.IntRange(0, 3).Draw(t, "ot") == 0 {
+	if uni(t, 100, "ot") < 15 {
 		s.OT = "cot"
 	} else {
 		s.OT = "co"
 	}
 	s.Seed = rapid.Uint64().Draw(t, "seed")
-	if rapid.IntRange(0, 3).Draw(t, "fragmented") == 0 {
+	if uni(t, 4, "fragmented") == 0 {
 		s.FragsGE = drawFrags(t, "frag_ge")
 		s.FragsEG = drawFrags(t, "frag_eg")
 	}
@@ -255,19 +279,19 @@ func genSession(t *rapid.T) Session {
 
 func drawMask(t *rapid.T) string {
 	var m []byte
-	switch k := rapid.IntRange(0, 99).Draw(t, "masktype"); {
+	switch k := uni(t, 100, "masktype"); {
 	case k < 35:
-		m = []byte{1 << uint(rapid.IntRange(0, 7).Draw(t, "bit"))}
+		m = []byte{1 << uint(uni(t, 8, "bit"))}
 	case k < 50:
 		m = []byte{0xff}
 	case k < 70:
-		m = []byte{byte(rapid.IntRange(1, 255).Draw(t, "maskbyte"))}
+		m = []byte{byte(1 + uni(t, 255, "maskbyte"))}
 	default:
-		n := rapid.IntRange(2, 32).Draw(t, "burstlen")
+		n := 2 + uni(t, 31, "burstlen")
 		m = make([]byte, n)
-		m[0] = byte(rapid.IntRange(1, 255).Draw(t, "burst0"))
+		m[0] = byte(1 + uni(t, 255, "burst0"))
 		for i := 1; i < n; i++ {
-			m[i] = byte(rapid.IntRange(0, 255).Draw(t, "burst"))
+			m[i] = byte(uniBits(t, 8, "burst"))
 		}
 	}
 	return hex.EncodeToString(m)
@@ -289,7 +313,7 @@ func kindsOf(lay []Seg, dir int) []string {
 func genCase(t *rapid.T) Case {
 	s := genSession(t)
 	var c Corruption
-	if rapid.IntRange(0, 9).Draw(t, "dir") < 6 {
+	if uni(t, 10, "dir") < 6 {
 		c.Dir = 0
 	} else {
 		c.Dir = 1
@@ -302,8 +326,8 @@ func genCase(t *rapid.T) Case {
 	if err == nil && rep.Skip == "" {
 		total = rep.Lens[c.Dir]
 		kinds := kindsOf(rep.Layout, c.Dir)
-		if len(kinds) > 0 && rapid.IntRange(0, 9).Draw(t, "stratified") < 8 {
-			kind := rapid.SampledFrom(kinds).Draw(t, "kind")
+		if len(kinds) > 0 && uni(t, 10, "stratified") < 8 {
+			kind := kinds[uni(t, len(kinds), "kind")]
 			for _, sg := range rep.Layout {
 				if sg.Dir == c.Dir && sg.Kind == kind {
 					segs = append(segs, sg)
@@ -312,17 +336,17 @@ func genCase(t *rapid.T) Case {
 		}
 	}
 	if len(segs) > 0 {
-		sg := segs[rapid.IntRange(0, len(segs)-1).Draw(t, "segment")]
+		sg := segs[uni(t, len(segs), "segment")]
 		n := sg.End - sg.Start
-		switch rapid.IntRange(0, 9).Draw(t, "position") {
+		switch uni(t, 10, "position") {
 		case 0:
 			c.Off = sg.Start
 		case 1:
 			c.Off = sg.End - 1
 		case 2:
-			c.Off = sg.Start + min(n-1, rapid.IntRange(0, 3).Draw(t, "head"))
+			c.Off = sg.Start + min(n-1, uni(t, 4, "head"))
 		default:
-			c.Off = sg.Start + rapid.IntRange(0, n-1).Draw(t, "offset")
+			c.Off = sg.Start + uni(t, n, "offset")
 		}
 	} else {
 		if total < 1 {
@@ -330,7 +354,7 @@ func genCase(t *rapid.T) Case {
 		}
 		// Uniform over the transcript and slightly beyond its end (a
 		// corruption that is never transmitted must change nothing).
-		c.Off = rapid.IntRange(0, total+total/50).Draw(t, "offset")
+		c.Off = uni(t, total+total/50+1, "offset")
 	}
 	c.Mask = drawMask(t)
 	return Case{S: s, C: c}
